@@ -17,12 +17,13 @@ NEEDS_HOOKS = True
 BOUNDS = {
     'quick': 'one knowledge base (t1..t6 over the base facts: conjunction, disjunction, recursion, not, cut, arithmetic); histories of 0-2 earlier operations, each = one of 4 queries run by one of: '
              'next_solution x1 then abandoned, next_solution to exhaustion then asked twice more, solve once, solve_all, solve_all with the (modelled) timer firing at its 1st / 3rd observation, '
-             'solve with the timer firing at its 2nd observation; then the probe (each of 4 queries, built with make_query after the history) run by next_solution, by solve and by solve_all; '
+             'solve with the timer firing at its 2nd observation; then the probe (each of 4 queries built with make_query after the history, and 4 source texts incl. a zero-arity query built with parse_query) run by next_solution, by solve and by solve_all; '
              'the probe\'s answers and output must equal the reference answers of that query',
     'thorough': 'histories of up to 3 operations',
 }
 OUTSIDE = 'resuming an older solution node after a newer query was constructed (one query at a time, as documented); real elapsed time'
-ASSUMPTIONS = ['the timer firing is the modelled event / the cfg(suiron_verif) countdown hook natively']
+ASSUMPTIONS = ['the timer firing is the modelled event / the cfg(suiron_verif) countdown hook natively',
+               'a timer that a driver call leaves running (never cancelled) is allowed to fire at any of the first observations of the next query']
 
 KB = [
     (C('t1', X), AND(gc('p', X), gc('q', X))),
@@ -32,11 +33,13 @@ KB = [
     (C('t5', X), AND(gc('p', X), gb('!'))), (C('t5', A('z')), None),
     (C('t6', X), AND(gc('n', Y), U(X, F('add', Y, I(1))))),
     (C('t7', X), AND(gc('h', X), gc('eq', Y, I(7)), gc('pr', Y, Z, W))),
+    (C('ready'), gc('p', A('a'))),
 ]
 QUERIES = [C('t1', X), C('t3', X), C('t4', X), C('t6', X)]
 HQ = [C('t2', X), C('t3', X), C('t5', X), C('t1', A('b'))]
 HOPS = ['next1', 'exhaust', 'solve', 'solve_all', 'solve_all_fire0', 'solve_all_fire2', 'solve_fire1']
 PROBES = ['next_solution', 'solve', 'solve_all']
+TEXT_PROBES = ['t1($X)', 'ready', 't3($X).', 'ready.']      # built by parse_query from source text
 
 
 def cases(tier, seed):
@@ -49,6 +52,10 @@ def cases(tier, seed):
         three = [[a, b, c] for a in hist1[::3] for b in hist1[::4] for c in hist1[::5]]
         hists += three
     for h in hists:
+        if len(h) <= 1:
+            for ti in range(len(TEXT_PROBES)):
+                for pr in PROBES[:2]:
+                    out.append({'id': 'history %s then probe %r (parse_query) via %s' % ([('%s:%s' % (P.ttext(HQ[q]), op)) for q, op in h], TEXT_PROBES[ti], pr), 'hist': h, 'text': ti, 'probe': 0, 'via': pr})
         for qi in range(len(QUERIES)):
             for pr in PROBES:
                 if len(h) == 2 and (qi + len(out)) % 2: continue
@@ -62,6 +69,9 @@ def run(drv, case):
     base = [P.inst(m, c, syms) for c in PC.needed_base(KB)]
     kbc = base + [P.inst(m, c, syms) for c in KB]
     probe = QUERIES[case['probe']]
+    if 'text' in case:
+        txt = TEXT_PROBES[case['text']]
+        probe = {'t1($X)': C('t1', X), 'ready': C('ready'), 't3($X).': C('t3', X), 'ready.': C('ready')}[txt]
     desc = case['id']
     try:
         ref = P.ref_search(m, kbc, probe, 10)
@@ -90,9 +100,18 @@ def run(drv, case):
                 else: res = [drv.solve(node)]
                 drv.stop_at(-1)
                 if res and res[-1] == TIMEOUT_MSG: tags.add('history-timed-out')
+        # a timer that an earlier driver call left running may still fire: during the probe, at any observation
+        leaked = m.timer is not None and m.timer.get('armed')
         # the probe, built after the history with the query constructor
-        q = drv.query([drv.term(t) for t in probe[1]])
+        if 'text' in case:
+            q, res = drv.parse('query', TEXT_PROBES[case['text']])
+            if res[0] != 'ok': raise Violation('probe-rejected', '%s: parse_query rejects the probe' % desc)
+        else:
+            q = drv.query([drv.term(t) for t in probe[1]])
         node = drv.base(q, kb)
+        if leaked:
+            drv.stop_at(m.choose(3))
+            tags.add('leaked-timer-fires')
         qv = drv.dump(q)
         via = case['via']
         tags.add('probe-' + via)
